@@ -188,11 +188,43 @@ Fixpoint lex_ok (e : fexpr) : bool :=
   | FAssert l t => lex_ok l && match fty_ty t with Some TyAny | None => false | Some _ => true end
   end.
 
+(* ---------- what the list-level theorems cover (FormatParseListProofs.item_ok without its
+   environment conditions): the layered fragment, array / map literals of such items,
+   parenthesised calls (f a b) and bare niladic calls, as whole expressions ---------- *)
+Definition wsish (t : token) : bool :=
+  match ttype t with T_WS | T_NL | T_COMMENT => true | _ => false end.
+
+(* identifiers and keywords may be map keys *)
+Definition key_text (k : str) : bool :=
+  let kt := tok_of_text k in
+  toktype_beq (ttype (as_ident kt)) T_IDENT && str_eqb (tlit (as_ident kt)) k && negb (wsish kt)
+  && negb (toktype_beq (ttype kt) T_RCURLY) && negb (toktype_beq (ttype kt) T_EOF).
+
+Fixpoint covered (fs : list (str * bool)) (w : bool) (e : fexpr) {struct e} : bool :=
+  let all := fix all (l : list fexpr) : bool := match l with [] => true | x :: t => covered fs true x && all t end in
+  let fn := fun n => lookup_func n fs in
+  match e with
+  | FAny e' => covered fs w e'
+  | FArr items els => wf_expr (FArr items els) && all els
+  | FMap items keys vals => wf_expr (FMap items keys vals) && forallb key_text keys && all vals
+  | FGroup (FCall n args) => ident_text n && match fn n with Some false => true | _ => false end && all args
+  | FCall n [] => ident_text n && match fn n with Some true => true | _ => false end
+  | _ => frag e && prec_ok e && lex_ok e && (if w then tight e else true)
+  end.
+
+(* expression positions parsed by parseTopLevelExpr: additionally  f a b ...  *)
+Fixpoint covered_top (fs : list (str * bool)) (e : fexpr) : bool :=
+  match e with
+  | FAny e' => covered_top fs e'
+  | FCall n (a :: r) => ident_text n && match lookup_func n fs with Some false => true | _ => false end && forallb (covered fs true) (a :: r)
+  | _ => covered fs false e
+  end.
+
 (* ---------- entry point for the correspondence run ---------- *)
 (* case: (wss ((fname niladic) ...) (var ...) fexpr fexpr2)
      wss: is the expression an item of a whitespace-sensitive list (call argument / array element / map value)
      fexpr: the expression of the tree that was formatted; fexpr2: the expression at the same place of the real re-parse
-   answer: (ok|nil|oof parsed-tree tree-of-fexpr tree-of-fexpr2 errs rest frag prec_ok tight lex_ok (token types...)) *)
+   answer: (ok|nil|oof parsed-tree tree-of-fexpr tree-of-fexpr2 errs rest frag prec_ok tight lex_ok covered (token types...)) *)
 Definition fmtparse_case (x : sx) : sx :=
   match x with
   | Lst [Sym tag; pr] =>
@@ -214,6 +246,7 @@ Definition fmtparse_case (x : sx) : sx :=
       let st := if wssb then push_wss true st0 else st0 in
       let fuel := 2 * List.length toks + 10 in
       let flags := [sx_bool (frag e); sx_bool (prec_ok e); sx_bool (tight e); sx_bool (lex_ok e);
+                    sx_bool (if wssb then covered funcs true e else covered_top funcs e);
                     Lst (map (fun t => tt_sx (ttype t)) toks)] in
       (* a list item is parsed by parseExprWSS -> parseExpr; any other expression position by parseTopLevelExpr *)
       match (if wssb then parse_expr E fuel lowestPrec st else parse_toplevel E (parse_expr E fuel) fuel st) with
